@@ -314,7 +314,7 @@ var staticAPI = []string{"Client.Exchange", "Client.ExchangeContext", "Client.Ex
 // judge applies the oracle to one exchange and emits the model case. real: the
 // exchange went over kernel sockets, outcomes that depend on time are not judged.
 // It reports whether the exchange was judged.
-func judge(entry, tr string, real bool, qid uint16, rep *dns.Msg, err error, want string, expected []byte, in epIn, emit func(got string)) {
+func judge(entry, tr string, real, firstForeign bool, qid uint16, rep *dns.Msg, err error, want string, expected []byte, in epIn, emit func(got string)) {
 	got := gotOf(rep, err, expected, want)
 	in.Got, in.Want = got, want
 	stat["entry_"+entry+"_"+tr]++
@@ -336,13 +336,15 @@ func judge(entry, tr string, real bool, qid uint16, rep *dns.Msg, err error, wan
 		stat["entry_real_socket_inconclusive"]++
 		return
 	}
-	if entry == "ExchangeConn" && tr == "udp" && got == "err:id" {
-		// ExchangeConn does a single read whatever the transport is: over a
-		// datagram conn a reply with another ID ends it with ErrId instead of
-		// being skipped (it fails safe: the foreign reply is never returned
-		// without an error). Deviation of the unchanged library from the text
-		// for this deprecated helper: counted, see docs/C12.md.
+	if entry == "ExchangeConn" && tr == "udp" && got == "err:id" && firstForeign {
+		// KNOWN FINDING (known_findings.json, docs/C12.md): ExchangeConn does a
+		// single read whatever the transport is, so over a datagram conn a reply
+		// with another ID ends it with ErrId instead of being skipped. It fails
+		// safe (the clause above: never a foreign reply without an error). Narrow
+		// key: this entry point, datagrams, ErrId, first datagram a well-formed
+		// reply with another ID. Anything else goes to the general keys below.
 		stat["exchangeconn_udp_errid_instead_of_skip_observed"]++
+		Viol("C12/Exchange/ExchangeConn-udp-no-skip", "ExchangeConn over a datagram conn returned ErrId for the first reply (another ID) instead of skipping it until the matching reply or the deadline", in)
 		return
 	}
 	stat["entry_point_oracle_checked"]++
@@ -500,6 +502,15 @@ func runEntryPoints(r *Rng, tier string) {
 		if strings.HasPrefix(wantS, "ok:") {
 			expS = firstS
 		}
+		// the first datagram is a well-formed reply to somebody else
+		firstForeign := false
+		if len(reps) > 0 {
+			p := reps[0]
+			if len(p) > bufsize {
+				p = p[:bufsize]
+			}
+			firstForeign = len(p) >= 12 && decodesOK(p) && binary.BigEndian.Uint16(p) != qid
+		}
 		dg := make([]string, len(repHex))
 		for i, h := range repHex {
 			dg[i] = "d" + h
@@ -525,7 +536,7 @@ func runEntryPoints(r *Rng, tier string) {
 						continue
 					}
 					in := epIn{Entry: name, Transport: "udp", Qid: qid, Replies: repHex}
-					judge(name, "udp", false, qid, rep, err, wantD, expD, in, emitD)
+					judge(name, "udp", false, firstForeign, qid, rep, err, wantD, expD, in, emitD)
 					if w := dc.Writes(); len(w) != 1 || !bytes.Equal(w[0].Data, qb) {
 						Viol("C12/Exchange/udp-request", name+": the request was not sent as exactly one datagram", in)
 					}
@@ -541,7 +552,7 @@ func runEntryPoints(r *Rng, tier string) {
 						Viol("C12/Exchange/panic", name+" panicked", in)
 						continue
 					}
-					judge(name, "tcp", false, qid, rep, err, wantS, expS, in, func(got string) {
+					judge(name, "tcp", false, firstForeign, qid, rep, err, wantS, expS, in, func(got string) {
 						Emit("xstream", []string{Itoa(int(qid)), spec, sizesString(sizes), strings.Join(badS, ",")}, got)
 						stat["entry_cases"]++
 					})
@@ -592,13 +603,13 @@ func runEntryPoints(r *Rng, tier string) {
 						continue
 					}
 					if network == "udp" {
-						judge(name, "udp", true, qid, rep, err, wantD, expD, in, emitD)
+						judge(name, "udp", true, firstForeign, qid, rep, err, wantD, expD, in, emitD)
 						if !bytes.Equal(sent, qb) {
 							Viol("C12/Exchange/udp-request", name+": the datagram the peer received is not the packed request", in)
 						}
 					} else {
 						in.EarlyEOF = cutAt
-						judge(name, "tcp", true, qid, rep, err, wantS, expS, in, func(got string) {
+						judge(name, "tcp", true, firstForeign, qid, rep, err, wantS, expS, in, func(got string) {
 							Emit("xstream", []string{Itoa(int(qid)), spec, "", strings.Join(badS, ",")}, got)
 							stat["entry_cases"]++
 						})
